@@ -390,7 +390,8 @@ def finish(ctx: Ctx):
     wall = time.time() - ctx.t0
     # replay files for new violations
     lines = []
-    rdir = os.path.join(VERIF, "replay", ctx.pid)
+    outroot = os.environ.get("VF_OUT", VERIF)  # seeded-change runs write their evidence/replay elsewhere
+    rdir = os.path.join(outroot, "replay", ctx.pid)
     for key, detail in ctx.violations.items():
         os.makedirs(rdir, exist_ok=True)
         path = os.path.join(rdir, _safe(key) + ".json")
@@ -426,8 +427,8 @@ def finish(ctx: Ctx):
         "wall_s": round(wall, 2),
         "violations": len(ctx.violations),
     }
-    os.makedirs(os.path.join(VERIF, "evidence"), exist_ok=True)
-    with open(os.path.join(VERIF, "evidence", f"{ctx.pid}.json"), "w") as f:
+    os.makedirs(os.path.join(outroot, "evidence"), exist_ok=True)
+    with open(os.path.join(outroot, "evidence", f"{ctx.pid}.json"), "w") as f:
         json.dump(ev, f, indent=1, ensure_ascii=False, default=repr)
     for ln in known_lines:
         print(ln)
